@@ -73,6 +73,20 @@ def population(rng):
         descs.append({'label': lb, 'group': 'Pole', 'location': 'Home',
                       'kind': 'matrix', 'height': h, 'width': w,
                       'color': [1, 2, 3, 3500], 'power': 0})
+    if rng.random() < 0.35:
+        # a second matrix light of another size
+        taken = {d['label'] for d in descs}
+        free = [n for n in ('Candle', 'Tube', 'Tile', 'Tile 9')
+                if n not in taken]
+        first = [d for d in descs if d['kind'] == 'matrix'][0]
+        while free:
+            h, w = rng.randint(1, 11), rng.randint(1, 8)
+            if h * w <= 64 and (h, w) != (first['height'], first['width']):
+                descs.append({'label': free[0], 'group': 'Pole',
+                              'location': 'Home', 'kind': 'matrix',
+                              'height': h, 'width': w,
+                              'color': [1, 2, 3, 3500], 'power': 0})
+                break
     for d in descs:
         if d['kind'] == 'mz' and rng.random() < 0.5:
             d['zones'] = rng.randint(1, 82)
@@ -90,6 +104,15 @@ def sequences(rng, pop):
             ['setreg', 'kelvin', ['num', 3000]]]
     hue = [10]
     state = {'mode': 'logical', 'nums': [10, 80, 60]}
+    ties = rng.random() < 0.4
+    if ties:
+        # numbers whose raw value falls exactly between two integers: a cell
+        # is rounded the way a plain `set` rounds
+        state['nums'] = [12, rng.choice([30, 70]), rng.choice([30, 70])]
+        hue[0] = 12
+        prog[:2] = [['setreg', 'hue', ['num', 12]],
+                    ['setreg', 'saturation', ['num', state['nums'][1]]],
+                    ['setreg', 'brightness', ['num', state['nums'][2]]]]
     REGS3 = {'logical': ('hue', 'saturation', 'brightness'),
              'raw': ('hue', 'saturation', 'brightness'),
              'rgb': ('red', 'green', 'blue')}
@@ -105,6 +128,8 @@ def sequences(rng, pop):
                 REGS3[state['mode']], state['nums']))
             return ['setreg', 'kelvin', ['num', 3000]]
         hue[0] = (hue[0] + rng.choice([17, 40, 95])) % 100
+        if ties:
+            hue[0] = rng.choice([12, 60, 30, 70])
         state['nums'][0] = hue[0]
         return ['setreg', REGS3[state['mode']][0], ['num', hue[0]]]
 
@@ -125,6 +150,12 @@ def sequences(rng, pop):
     prog.insert(0, ['routine', 'same', ['sx'], [['return', ['var', 'sx']]],
                     True])
 
+    def fits(spec, ext):
+        if spec is None:
+            return True
+        nums = [x for x in spec if x is not None]
+        return all(x[0] == 'num' and x[1] < ext for x in nums)
+
     def rc(h, w):
         rows, cols = rng_spec(h), rng_spec(w)
         if rows is None and cols is None:
@@ -142,6 +173,17 @@ def sequences(rng, pop):
             if rng.random() < 0.5:
                 rows, cols, order = rc(h, w)
                 prog.append(['action', 'set', [['matrix', nx, rows, cols, order]]])
+                others = [m for m in mats if m is not d and fits(
+                    rows, m['height']) and fits(cols, m['width'])]
+                if others and rng.random() < 0.6:
+                    # the same clauses, word for word, for a light of another
+                    # size: what an omitted clause or end means is that
+                    # light's extent
+                    if rng.random() < 0.4:
+                        prog.append(colour())
+                    prog.append(['action', 'set', [[
+                        'matrix', ['str', rng.choice(others)['label']], rows,
+                        cols, order]]])
             else:
                 body = []
                 for _ in range(rng.randint(1, 4)):
@@ -174,7 +216,76 @@ def sequences(rng, pop):
     return prog, {'clause-sequences'}, []
 
 
+PLAIN_POP = [dict(label='Lamp', group='G', location='P'),
+             dict(label='Strip', group='G', location='P', kind='mz', zones=6),
+             dict(label='Candle', group='G', location='P', kind='matrix',
+                  height=3, width=2)]
+# numbers whose raw value lies exactly between two integers, and ordinary ones
+TIES = {'logical': ([12, 60, 108, 156, 204, 252, 300, 348, 36, 84, 7.5, 200],
+                    [30, 70, 10, 50, 90, 33.3, 100, 0]),
+        'rgb': ([30, 70, 10, 50, 100, 0, 33.3], [30, 70, 10, 50, 100, 0]),
+        'raw': ([0.5, 2.5, 1.5, 100.5, 65534.5, 32768, 7],
+                [0.5, 2.5, 1.5, 20000.5, 65535, 9])}
+
+
+def part_same_as_plain(ctx):
+    """"Cell colours are converted exactly as a plain `set` would convert
+    them": one colour sent, in one script, to a plain light, to a zone and to
+    matrix cells (staged and default) -- the four integers are the same"""
+    from bvf.runner import run_script
+    from bvf.oracle import lit
+    from bvf import env, simnet
+    env.configure(simnet.make_devices(PLAIN_POP))
+    rng = ctx.rng('plain', ctx.shard)
+    for _ in range(25 if ctx.tier == 'quick' else 1500):
+        mode = rng.choice(['logical', 'logical', 'rgb', 'raw'])
+        first, rest = TIES[mode]
+        vals = [rng.choice(first), rng.choice(rest), rng.choice(rest)]
+        k = rng.choice([2700, 2500.5, 3500]) if mode != 'raw' else \
+            rng.choice([2700, 2500.5, 0.5])
+        regs = ('red', 'green', 'blue') if mode == 'rgb' else \
+            ('hue', 'saturation', 'brightness')
+        text = 'units {} {} kelvin {} '.format(mode, ' '.join(
+            '{} {}'.format(r, lit(v)) for r, v in zip(regs, vals)), lit(k))
+        text += rng.choice([
+            'set "Lamp" set "Strip" zone 1 3 set "Candle" row 0 1',
+            'set "Lamp" set default set "Candle" column 1 set "Strip" zone 2',
+            'set "Lamp" set "Candle" begin stage row 1 stage column 0 end '
+            'set "Strip" zone 0',
+            'set default set "Lamp" set "Candle" begin stage row 2 end'])
+        r = run_script(text)
+        ctx.case('SP:' + text)
+        replay = {'part': 'same-as-plain', 'script': text}
+        if not r.accepted or r.stops:
+            ctx.violation('same-as-plain:rejected-or-aborted', '{} {} | {}'
+                          .format(r.errors.strip(), r.stops[:1], text), replay)
+            continue
+        plain, others = None, []
+        for e in r.log:
+            if e[0] != 'dev' or e[-1] != 'ok':
+                continue
+            if e[2] == 'set_color':
+                plain = list(e[3][0])
+            elif e[2] == 'set_zone_color':
+                others.append(('zone', list(e[3][2])))
+            elif e[2] == 'SetTileState64':
+                for c in e[3][0]['colors']:
+                    if list(c) != [0, 0, 0, 0]:
+                        others.append(('cell', list(c)))
+        if plain is None or not others:
+            ctx.violation('same-as-plain:nothing-sent', text, replay)
+            continue
+        diff = [(w, c) for w, c in others if c != plain]
+        if diff:
+            ctx.violation('same-as-plain:' + diff[0][0] + '-differs',
+                          'a plain set sends {}, the {} gets {} | {}'.format(
+                              plain, diff[0][0], diff[0][1], text), replay)
+        else:
+            ctx.count('colours_equal_to_plain_set', len(others))
+
+
 def run_shard(ctx):
+    part_same_as_plain(ctx)
     n = N[ctx.tier]
     for i in range(ctx.shard, n, ctx.nshards):
         out = progcheck.one_case(ctx, i, PROFILE, 'c15', pop_fn=population,
@@ -195,6 +306,8 @@ def run_shard(ctx):
 
 def finalize(merged):
     c = merged['counters']
+    if not c.get('colours_equal_to_plain_set') and not merged['violations']:
+        merged['inconclusive'].append('no cell was compared with a plain set')
     low = [k for k in REQUIRED if c.get(k, 0) < 20]
     if low and not merged['violations']:
         merged['inconclusive'].append(
